@@ -133,7 +133,8 @@ Proof.
       injection E as <- <-; try discriminate. apply Frame; reflexivity.
   - (* Unlock1 *) cbn [step] in E. destruct (mem id (locks s)); injection E as <- <-; try discriminate.
     apply Frame; reflexivity.
-  - (* Open1 *) destruct D as (_ & _ & _ & c & Lc & Rv). cbn [step] in E. injection E as <- _.
+  - (* Open1 *) destruct D as (_ & _ & _ & c & Lc & Rv). cbn [step] in E.
+    destruct (revisable1 (height s) (t1 (dbs s)) id) as [[]| |]; injection E as <- <-; try discriminate.
     split.
     + intros id0 c0 HL. apply (RL id0 c0 HL).
     + intros u'. cbn [apend upds set_upds]. rewrite !alookup_aset. destruct (u' =? u); [|apply RU].
